@@ -1632,3 +1632,89 @@ func specRawFrom(expr string, idx int, pos int, buf string) (string, int, bool) 
 	}
 	return specRawFrom(expr, idx, pos+w, buf)
 }
+
+// specTokenTypeAt: the type of the token whose spelling starts at byte offset p,
+// decided by its first character and, for the two-character operators, the one
+// after it (JMESPath grammar: terminals).
+func specTokenTypeAt(expr string, p int) tokType {
+	if p < 0 || p >= len(expr) {
+		return tEOF
+	}
+	r := specRuneAt(expr, p)
+	w := specWidthAt(expr, p)
+	r2 := rune(-1)
+	if p+w < len(expr) {
+		r2 = specRuneAt(expr, p+w)
+	}
+	switch {
+	case specIdentStart(r):
+		return tUnquotedIdentifier
+	case r == '.':
+		return tDot
+	case r == '*':
+		return tStar
+	case r == ',':
+		return tComma
+	case r == ':':
+		return tColon
+	case r == '{':
+		return tLbrace
+	case r == '}':
+		return tRbrace
+	case r == ']':
+		return tRbracket
+	case r == '(':
+		return tLparen
+	case r == ')':
+		return tRparen
+	case r == '@':
+		return tCurrent
+	case r == '-' || r >= '0' && r <= '9':
+		return tNumber
+	case r == '[':
+		if r2 == '?' {
+			return tFilter
+		}
+		if r2 == ']' {
+			return tFlatten
+		}
+		return tLbracket
+	case r == '"':
+		return tQuotedIdentifier
+	case r == '\'':
+		return tStringLiteral
+	case r == '`':
+		return tJSONLiteral
+	case r == '|':
+		if r2 == '|' {
+			return tOr
+		}
+		return tPipe
+	case r == '<':
+		if r2 == '=' {
+			return tLTE
+		}
+		return tLT
+	case r == '>':
+		if r2 == '=' {
+			return tGTE
+		}
+		return tGT
+	case r == '!':
+		if r2 == '=' {
+			return tNE
+		}
+		return tNot
+	case r == '=':
+		if r2 == '=' {
+			return tEQ
+		}
+		return tUnknown
+	case r == '&':
+		if r2 == '&' {
+			return tAnd
+		}
+		return tExpref
+	}
+	return tUnknown
+}
